@@ -1,4 +1,4 @@
-HOOK_COMMITS = ["74c1968", "80f8eba", "7c7c9f0", "e474722", "85831de"]
+HOOK_COMMITS = ["74c1968", "80f8eba", "2461cc2", "e474722", "85831de"]
 T = "contract-based deductive verification: weakest-precondition style symbolic execution of the go/ssa (naive form) IR of the current /repo sources against contracts in /repo/contracts_verif.go; obligations discharged by z3/cvc5"
 CLAIMED.update({
  "C01": (T,
